@@ -183,6 +183,42 @@ def _obs_var(L, stores, org):
     return best[0][0]
 
 
+def _episode_record(ck, repo):
+    """EpisodeDataset keeps one record per step: add_sample must put all four of its arguments (observation, action, successor
+    observation, reward) into the element it appends to the current episode.  A representation that keeps one of them elsewhere
+    (e.g. only the latest successor) has to reconstruct the per-step value later; that reconstruction is not read here - undecided."""
+    from ..nf import NF, Poly
+    from ..sympath import enumerate_paths, PathEval
+    cq = "rl_blox.algorithm.reinforce.EpisodeDataset"
+    m = repo.method(cq, "add_sample")
+    if m is None:
+        raise AnalysisError(f"{cq}.add_sample not found (anchor vanished)")
+    fn = m[1]
+    mi = repo.cls(cq)._module
+    fn._module = mi
+    nf = NF(repo, inline_calls=False)
+    cfg = nf.cfg_of(fn)
+    params = [p for p in positional_params(fn) if p != "self"]
+    if len(params) != 4:
+        raise AnalysisError(f"{cq}.add_sample: signature changed (anchor vanished)")
+    env0 = {p: Poly.atom(p, {p}, {p}) for p in params}
+    for pth in enumerate_paths(cfg, cfg.entry, {cfg.exit}):
+        if any(isinstance(cfg.nodes[n_].ast, (ast.Raise, ast.Assert)) and cfg.nodes[n_].kind == "stmt" and isinstance(cfg.nodes[n_].ast, ast.Raise) for n_, _l in pth):
+            continue
+        pe = PathEval(nf, cfg, mi, cq + ".add_sample", env0).run(pth)
+        apps = [v for (_n, key, v) in pe.appended if key.startswith("self.episodes[")]
+        if len(apps) != 1:
+            raise AnalysisError(f"{cq}.add_sample: {len(apps)} appends to the current episode on a path (unrecognised form)")
+        rec = apps[0]
+        held = set()
+        for el in (rec.elems or [rec]):
+            held |= {a for a in el.atoms() if a in params}
+        missing = [p for p in params if p not in held]
+        if missing:
+            raise AnalysisError(f"{cq}.add_sample: the per-step record `{rec.canon()[:80]}` does not hold {missing}: the value is kept elsewhere and reconstructed later (not read by this analysis)")
+        ck.ob("R1-store-role", cq + ".add_sample", "record-holds-all-roles", True, f"appends {rec.canon()[:80]}", "", loc(mi, fn))
+
+
 def _different_value(org, expr, at, wanted) -> bool | None:
     """True when ``expr`` is known to be another value than the protocol value ``wanted``: it depends on other step / reset
     positions.  None when that cannot be told (depends only on the wanted value - possibly an identity wrapper - or on untraceable names)."""
@@ -360,6 +396,7 @@ def run(ck, repo: Repo, tier: str):
 
     for L in loops:
         ck.guard(one_loop, L)
+    ck.guard(_episode_record, ck, repo)
     n_sites = n_sites_box[0]
     ck.count("store-sites", n_sites)
     ck.floor("store-sites", n_sites, 24)
